@@ -292,7 +292,13 @@ FORMULAS = [
     'ite(b, x + 1, y * 2) - z < 3',
 ]
 
+PRIMED_DEFS = [
+    ('p == (x > 1)', r"p' /\ b"), ('p == (x > 1)', 'X p'), ('p == (x + y <= z)', r"(p /\ b)'"),
+    ('p == (x > 1)\nq == p \/ c', "q' <=> p"), ('p == b', "p' => p"),
+]
+
 PRIMED = [
+    "LET q == x + 1 > y IN q'", r"LET q == b /\ (x = 1) IN (q' \/ q)", 
     "x' = x + 1", "b' <=> ~ b", "(x + y)' <= z'", "X b", "x' - y >= z'",
     "(IF b THEN x ELSE y)' = z", r"(\E x: x + 1 = y)'", r"(\A b: b \/ c)'",
     r"(\E x, y: x + y = z)' /\ b", "(LET a == x + 1 IN a > y)'",
